@@ -135,6 +135,10 @@ FailedRun(v, c, k, o) ==
      (IF plainOf # {} /\ ~AggOK(c, r, ro, o.runs[CHOOSE x \in plainOf : TRUE]) THEN {"C13-aggregate"} ELSE {})
   ELSE IF r.s # -1 \/ r.e # -1 THEN
      (IF plainOf # {} /\ ~WindowOK(c, r, ro, o.runs[CHOOSE x \in plainOf : TRUE]) THEN {"C15-window-filter"} ELSE {})
+     \cup (IF r.cmd = "topa-variants"      \* C11 under a window: the FASTA form of the alignment through variants with the same window
+           THEN LET g == FindRun(v, LAMBDA x : x.cmd = "samvar" /\ SameRun(x, r, FALSE, TRUE)) IN
+                IF g # {} /\ ~SameListsOK(o.runs[CHOOSE x \in g : TRUE], ro) THEN {"C11-sam-vs-pair"} ELSE {}
+           ELSE {})
   ELSE IF r.stdin THEN
      (IF plainOf # {} /\ ~SameListsOK(ro, o.runs[CHOOSE x \in plainOf : TRUE]) THEN {"C15-stdin"} ELSE {})
   ELSE
